@@ -33,7 +33,7 @@ RULE = (
 ASSUMPTIONS = ["hooks that raise are outside C10 (C03 covers them)", "virtual-time loop, inline executor"]
 
 
-def scenario() -> Any:
+def scenario(big: bool = False) -> Any:
     hook = st.fixed_dictionaries({"async": st.sampled_from([False, True, True, "deferred"]), "stamp": st.booleans(), "inherited": st.sampled_from([False, False, True])})
     mw = st.dictionaries(st.sampled_from(list(wh.HOOKS)), hook, max_size=6)
 
@@ -50,8 +50,8 @@ def scenario() -> Any:
                      timeouts=(None, None, None, 0.3), acks=(None, "sync"), at=cm.times(20))
     return st.fixed_dictionaries({
         "A": st.integers(1, 3), "P": st.integers(0, 2),
-        "mws": st.lists(mw, max_size=3),
-        "msgs": st.lists(msg, min_size=1, max_size=4),
+        "mws": st.lists(mw, max_size=5 if big else 3),
+        "msgs": st.lists(msg, min_size=1, max_size=7 if big else 4),
         "fail_saves": st.sets(st.integers(0, 3), max_size=2),
         "fail_kicks": st.sets(st.integers(0, 3), max_size=2),
         "concurrent_send": st.booleans(),
@@ -65,7 +65,7 @@ def scenario() -> Any:
 
 def parts(tier: str) -> List[Part]:
     if tier == "thorough":
-        return [Part("stacks", "given", shards=16, examples=5000, strategy=scenario, soft_deadline_s=1500)]
+        return [Part("stacks", "given", shards=16, examples=12000, strategy=lambda: scenario(True), soft_deadline_s=3000)]
     return [Part("stacks", "given", shards=8, examples=600, strategy=scenario, soft_deadline_s=120)]
 
 
